@@ -46,7 +46,7 @@ Definition exec (c : choice) (s : st) : st :=
              | F_Wait => if all_paused s then {| hp := hp s; fp := F_Forked; child := Some (merged s) |} else s
              | _ => s end
   | FEnd => match fp s with
-            | F_Forked => {| hp := fun h => let x := hp s h in {| hph := hph x; hq := hq x; hbatch := hbatch x; hdone := hdone x; hreg := hreg x; pause := false; paused := paused x |}; fp := F_Done; child := child s |}
+            | F_Forked => {| hp := fun h => let x := hp s h in {| hph := hph x; hq := hq x; hbatch := hbatch x; hdone := hdone x; hreg := hreg x; pause := false; paused := paused x |}; fp := F_Idle (* the parent may fork again *); child := child s |}
             | _ => s end
   end.
 
